@@ -39,6 +39,12 @@ def check(model, tier):
 
     _reqeval.r13_6_requirements(ctx, rule="R20.4e")
     commute.r04_4_set_formulas(ctx, rule="R20.5")
+    from ..rules import sqlemit as _sqlemit
+
+    _sqlemit.r_select_hooks_get_selects(ctx, "R20.7")
+    from ..rules import mergeeval as _mergeeval
+
+    _mergeeval.r13_7_selection_stores_equivalent(ctx, rule="R20.8")  # the stored predicate keeps every column requirement of the given one
     from ..rules import merge as _merge
 
     # the engine-support check sits after simplification in _finish_apply: only the identical operation may be elided
